@@ -106,7 +106,7 @@ macro_rules! oracle {
 
 /// One broadcast on `pool`, issued by the current thread, with all per-broadcast
 /// oracles. Returns a shape string (which thread ran which index).
-fn one_broadcast(pool: &Pool, bi: usize, b: &Broadcast, max_n_before: usize) -> String {
+fn one_broadcast(pool: &Pool, bi: usize, b: &Broadcast, max_n_before: usize, results: &mut Vec<Option<usize>>) -> String {
     let n = b.n;
     let me = log::thread_index() as usize;
     let cells: Vec<SyncCell<usize>> = (0..=n).map(|_| SyncCell(loom::cell::UnsafeCell::new(0))).collect();
@@ -140,13 +140,15 @@ fn one_broadcast(pool: &Pool, bi: usize, b: &Broadcast, max_n_before: usize) -> 
         10 * index + bi
     };
 
-    let mut results: Vec<Option<usize>> = Vec::new();
+    // `results` is reused by consecutive par_extend broadcasts of one caller (cleared, capacity kept),
+    // the way the sampling loop reuses its vector of raw samples from round to round.
+    results.clear();
     // A payload whose destructor panics makes `broadcast` itself unwind (after
     // it has waited for the workers); the oracles below apply all the same.
     let unwound = std::panic::catch_unwind(std::panic::AssertUnwindSafe(|| {
         if b.extend {
             results.push(Some(424242)); // pre-existing element must be preserved
-            pool.par_extend(&mut results, n, &body);
+            pool.par_extend(&mut *results, n, &body);
         } else {
             pool.broadcast(n, |i| {
                 body(i);
@@ -214,15 +216,16 @@ fn pool_scenario(history: &[Broadcast], prop: Option<&str>) {
     let pool = Arc::new(Pool::new());
     let mut max_n = 0usize;
     let mut shape = String::new();
+    let mut results: Vec<Option<usize>> = Vec::new();
 
     for (bi, b) in history.iter().enumerate() {
         if b.caller == 0 {
-            shape.push_str(&one_broadcast(&pool, bi, b, max_n));
+            shape.push_str(&one_broadcast(&pool, bi, b, max_n, &mut results));
         } else {
             // The broadcast is issued by another thread than the earlier ones
             // (the pool is shared; calls are sequential).
             let (pool2, b2) = (pool.clone(), b.clone());
-            let h = loom::thread::spawn(move || one_broadcast(&pool2, bi, &b2, max_n));
+            let h = loom::thread::spawn(move || one_broadcast(&pool2, bi, &b2, max_n, &mut Vec::new()));
             match h.join() {
                 Ok(s) => shape.push_str(&s),
                 Err(_) => panic!("machinery: the helper caller thread panicked"),
